@@ -84,7 +84,7 @@ func ParseCFF2(src []byte) (*CFF2, error) {
 
 	out.fonts = make([]privateFonts, len(fdIndex))
 	// the font dicts may share their local subroutines: parse each INDEX once
-	parsedSubrs := make(map[int32][][]byte)
+	parsedSubrs := make(map[int][][]byte)
 	// private dict reference
 	for i, font := range fdIndex {
 		var fd fontDict2
@@ -109,13 +109,18 @@ func ParseCFF2(src []byte) (*CFF2, error) {
 		out.fonts[i].defaultVSIndex = pd.vsindex
 		// if required, parse the local subroutines
 		if pd.subrsOffset != 0 {
-			subrs, done := parsedSubrs[pd.subrsOffset]
+			// "The local subrs offset is relative to the beginning of the Private DICT data"
+			subrsOffset := int(fd.privateDictOffset) + int(pd.subrsOffset)
+			if subrsOffset < 0 {
+				return nil, fmt.Errorf("reading private dict: invalid subrs offset %d", pd.subrsOffset)
+			}
+			subrs, done := parsedSubrs[subrsOffset]
 			if !done {
-				subrs, err = parseIndex2(src, int(pd.subrsOffset))
+				subrs, err = parseIndex2(src, subrsOffset)
 				if err != nil {
 					return nil, err
 				}
-				parsedSubrs[pd.subrsOffset] = subrs
+				parsedSubrs[subrsOffset] = subrs
 			}
 			out.fonts[i].localSubrs = subrs
 		}
